@@ -72,6 +72,7 @@ def cases(tier, seed):
                 "learn_first": bool((i // 2) % 2 == 0),
                 # several learning rates configured with the SAME value and range (e.g. parsed from one config entry)
                 "equal_lrs": bool(len(LR_NAMES[algo]) > 1 and (i // 4) % 2 == 0),
+                "int_literal_bounds": bool(i % 3 == 1),
                 "seed": int(rng.integers(1 << 30)),
             }
         )
@@ -96,6 +97,7 @@ def _make_cfg(case, algo):
 
     rng = np.random.default_rng(case["cfg_seed"])
     params, init = {}, {}
+    decl = {}  # what the caller WROTE: name -> (min, max, shrink, grow, number type); never read back from the objects
     corner = case["corner"]
     style = case.get("factors", "usual")
     if case.get("negative_range") and algo in NEGATIVE_CAPABLE:
@@ -104,6 +106,7 @@ def _make_cfg(case, algo):
         hi = -float(rng.uniform(0.05, 0.9))
         sh, gr = _factors(rng, style)
         params[name] = RLParameter(min=lo, max=hi, shrink_factor=sh, grow_factor=gr)
+        decl[name] = (lo, hi, sh, gr, float)
         init[name] = float(rng.uniform(lo, hi))
     shared_lr = None
     for lr in LR_NAMES[algo]:
@@ -124,6 +127,7 @@ def _make_cfg(case, algo):
             v = lo
         sh, gr = _factors(rng, style)
         params[lr] = RLParameter(min=lo, max=hi, shrink_factor=sh, grow_factor=gr)
+        decl[lr] = (lo, hi, sh, gr, float)
         init[lr] = v
     lo = int(rng.integers(4, 10))
     hi = int(lo + rng.integers(0, 24)) if corner != "min_eq_max" else lo
@@ -136,16 +140,27 @@ def _make_cfg(case, algo):
         v = hi
     sh, gr = _factors(rng, style)
     params["batch_size"] = RLParameter(min=lo, max=hi, dtype=int, shrink_factor=sh, grow_factor=gr)
+    decl["batch_size"] = (lo, hi, sh, gr, int)
     init["batch_size"] = v
     lo = int(rng.integers(1, 4))
     hi = int(lo + rng.integers(0, 12))
     sh, gr = _factors(rng, style)
     params["learn_step"] = RLParameter(min=lo, max=hi, dtype=int, shrink_factor=sh, grow_factor=gr)
+    decl["learn_step"] = (lo, hi, sh, gr, int)
     init["learn_step"] = int(rng.integers(lo, hi + 1))
     if rng.random() < 0.4:
         params.pop("learn_step")
         init.pop("learn_step")
-    return HyperparameterConfig(**params), init
+        decl.pop("learn_step")
+    if case.get("int_literal_bounds") and algo not in ("NeuralUCB", "NeuralTS"):
+        # a FLOAT hyperparameter whose range is written with integer literals (gamma in 0..1): still a float
+        sh, gr = _factors(rng, style)
+        params["gamma"] = RLParameter(min=0, max=1, shrink_factor=sh, grow_factor=gr)
+        decl["gamma"] = (0, 1, sh, gr, float)
+        init["gamma"] = float(rng.uniform(0.3, 0.99))
+    cfg = HyperparameterConfig(**params)
+    cfg._vf_declared = decl
+    return cfg, init
 
 
 class _TorchProxy:
@@ -196,6 +211,47 @@ def _group_lrs(agent, attr):
             for g in o.param_groups:
                 out.append(float(g["lr"]))
     return out
+
+
+def _stepped_lr_check(rec, agent, case, algo, how, target, rnd):
+    import torch
+
+    from vf import zoo
+
+    a = zoo.unwrap(agent)
+    owned = {}
+    for cfg in a.registry.optimizers:
+        ow = getattr(a, cfg.name)
+        for o in ow.optimizer if isinstance(ow.optimizer, list) else [ow.optimizer]:
+            owned[id(o)] = _expected_lr_attr(agent, cfg)
+    stepped = []
+    from torch.optim.optimizer import register_optimizer_step_pre_hook
+
+    handle = register_optimizer_step_pre_hook(lambda opt, args, kwargs: stepped.append(opt))
+    try:
+        try:
+            zoo.learn(agent, batch_seed=case["seed"] % 3989 + 17 * rnd)
+        finally:
+            handle.remove()
+    except CaseTimeout:
+        raise
+    except Exception as e:
+        rec.hit("learn_after_lr_mutation_failed(info)")
+        rec.extra["learn_after_lr_mutation_failed"] = f"{type(e).__name__}: {str(e)[:100]}"
+        return
+    rec.hit("stepped_optimizer_checks", len(stepped))
+    site = "learn() after Mutations.rl_hyperparam_mutation"
+    for o in stepped:
+        attr = owned.get(id(o))
+        if attr is None:
+            rec.violate("lr_effect", "learn_steps_an_optimizer_the_agent_no_longer_owns", site, algo=algo, mutated=target, how=how,
+                        stepped_lrs=[float(g["lr"]) for g in o.param_groups], agent_values={n: getattr(a, n) for n in LR_NAMES[algo]})
+            return
+        for g in o.param_groups:
+            if not _same_number(float(g["lr"]), getattr(a, attr)):
+                rec.violate("lr_effect", "stepped_optimizer_group_lr_differs_from_agent_value", site, algo=algo, name=attr,
+                            group_lr=float(g["lr"]), agent_value=getattr(a, attr), mutated=target, how=how)
+                return
 
 
 def _snapshot(pop, names):
@@ -285,7 +341,7 @@ def run_case(case):
     specs = {}
     # what the USER configured (taken before anything ran): every agent, however the population was built, copied or
     # selected, must mutate with exactly these ranges, factors and number types
-    declared = {n: (cfg[n].min, cfg[n].max, cfg[n].shrink_factor, cfg[n].grow_factor, cfg[n].dtype) for n in cfg.names()}
+    declared = dict(cfg._vf_declared)
     changed_any = bound_or_lr = False
     m = agentops.make_mutations("rl_hp", seed=case["seed"] % 100000)
     for rnd in range(case["rounds"]):
@@ -399,6 +455,10 @@ def run_case(case):
                             rec.violate(
                                 "lr_effect", "optimizer_group_lr_differs_from_agent_value", site, algo=algo, name=n, group_lr=g, agent_value=after[k][n], mutated=target, how=how
                             )
+            # "... of every optimizer group that the agent STEPS": a learn step after a learning-rate mutation, with a global
+            # step hook that records which optimizer objects learn() really steps
+            if target is not None and str(target).startswith("lr") and case.get("learn_first"):
+                _stepped_lr_check(rec, pop[k], case, algo, how, target, rnd)
             # nobody else moved
             for j in range(len(pop)):
                 if j == k:
